@@ -8,7 +8,9 @@ from mc.props import loopcommon as lc
 
 LEVEL = "model_checking"
 SETUPS = [("RK4Solver", 0.25, None), ("DOPRI45", 0.25, None), ("RK45CKSolver", 3.0, None), ("ABAs5o6HSolver", 0.25, None),
-          ("ImplicitMidpoint", 0.25, "fd"), ("ImplicitMidpoint", 0.25, "user"), ("RICH:EulerSolver:3", 0.25, None), ("RadauIIA5", 0.25, "user")]
+          ("ImplicitMidpoint", 0.25, "fd"), ("ImplicitMidpoint", 0.25, "user"), ("RICH:EulerSolver:3", 0.25, None), ("RadauIIA5", 0.25, "user"),
+          # Richardson wrappers of a first-same-as-last pair and of an implicit base (their sub-integrators keep end slopes of their own)
+          ("RICH:DOPRI45:2", 0.25, None), ("RICH:ImplicitMidpoint:2", 0.25, "user")]
 T0, TF = 0.0, 2.0
 
 
